@@ -49,11 +49,14 @@ def _none_terminated(iterator):
     yield item
   yield None
 
+_TAG_KINDS = {"bold": "b", "italic": "i", "underline": "u"}
+
 class _TextParser(HTMLParser):
 
   def __init__(self, paragraph: model.P, line_number: int) -> None:
     self.line_num: int = line_number
     self.parent: model.ContentElement = paragraph
+    self.open_tags: typing.List[typing.Tuple[str, list]] = []
     super().__init__()
 
   def handle_starttag(self, tag, attrs):
@@ -61,6 +64,7 @@ class _TextParser(HTMLParser):
     span = model.Span(self.parent.get_doc())
     self.parent.push_child(span)
     self.parent = span
+    self.open_tags.append((tag, attrs))
 
     if tag.lower() in ("b", "bold"):
       span.set_style(styles.StyleProperties.FontWeight, styles.FontWeightType.bold)
@@ -88,7 +92,24 @@ class _TextParser(HTMLParser):
       return
 
   def handle_endtag(self, tag):
-    self.parent = self.parent.parent()
+    # close the innermost open tag of the same kind: tags opened inside it remain open
+
+    kind = _TAG_KINDS.get(tag.lower(), tag.lower())
+    kinds = [_TAG_KINDS.get(t.lower(), t.lower()) for t, _ in self.open_tags]
+
+    if kind not in kinds:
+      LOGGER.warning("End tag %s without start tag at line %s", tag, self.line_num)
+      return
+
+    index = len(kinds) - 1 - kinds[::-1].index(kind)
+    still_open = self.open_tags[index + 1:]
+
+    for _ in self.open_tags[index:]:
+      self.parent = self.parent.parent()
+    del self.open_tags[index:]
+
+    for still_open_tag, attrs in still_open:
+      self.handle_starttag(still_open_tag, attrs)
 
   def handle_data(self, data):
     lines = data.split("\n")
